@@ -47,6 +47,10 @@ type Op struct {
 	Old    int     `json:"old,omitempty"` // commit: name of the old root (0 = fresh empty tree)
 	Writes []Write `json:"writes,omitempty"`
 	Roots  []int   `json:"roots,omitempty"` // finalize: names of roots
+	// Then: what happens right after the operation, before the read-back: "reopen" (Close + New: the
+	// memtable is flushed into an on-disk table) or "compact" (NodeDB.Compact: Badger's physical
+	// garbage collection below the discard timestamp). Neither may change any answer.
+	Then string `json:"then,omitempty"`
 }
 
 type Case struct {
@@ -307,6 +311,7 @@ type opObs struct {
 	roots    []rootObs
 	// node-level record (badger only)
 	puts, removed, reach, inl []int
+	resolveKnown, resolves bool // pathbadger, tainting commit: node resolution status of the new root
 	tree [][3]int // pathbadger: (node version, index, node id) of the new root's stored nodes
 }
 
@@ -359,6 +364,7 @@ type runner struct {
 	trees    map[string][][3]int // pathbadger: "ver/rid" -> stored nodes of the root
 	lost     map[int]string // badger: node id -> finding key of the Finalize that deleted it while still in use
 	tainted  bool
+	walkResolves bool // pathbadger: the last walkTree found every stored node resolvable to the expected node
 	seqCount map[string]int // "ver/typ" -> batches that reserved a sequence number
 	seqOf    map[string]int // "ver/rid" -> sequence number of the batch that created the root
 }
@@ -415,6 +421,28 @@ func newRunner(kind string, pl *plan) (*runner, error) {
 	r.ndb = r.rec
 	r.ref = refState{present: map[uint64]map[int]bool{}, derived: map[string][]int{}, finalized: map[uint64]bool{}}
 	return r, nil
+}
+
+// after performs the op's Then action.
+func (r *runner) after(op Op) {
+	defer func() {
+		if p := recover(); p != nil {
+			r.flag(fmt.Sprintf("%s: %s after %s(%d) panicked: %v", r.kind, op.Then, op.K, op.Ver, p))
+		}
+	}()
+	switch op.Then {
+	case "reopen":
+		r.rec.NodeDB.Close()
+		ndb, err := openDB(r.kind, r.dir)
+		if err != nil {
+			panic(fmt.Sprintf("cannot reopen: %v", err))
+		}
+		r.rec.NodeDB = ndb
+	case "compact":
+		if err := r.ndb.Compact(); err != nil {
+			r.flag(fmt.Sprintf("%s: Compact after %s(%d): %v", r.kind, op.K, op.Ver, err))
+		}
+	}
 }
 
 func (r *runner) close() {
@@ -533,6 +561,14 @@ func (r *runner) walkTree(ri, oi *rootInfo) (out [][3]int) {
 				}
 				next := root
 				if ver, idx, ok := ptrKey(ch); ok {
+					// does pathbadger itself resolve this pointer, under the root being read, to the node
+					// the parent refers to?  (GetNode does not verify hashes.)
+					cp := *ch
+					if got, gerr := r.rec.NodeDB.GetNode(root, &cp); gerr != nil {
+						r.walkResolves = false
+					} else if gh := got.GetHash(); !gh.Equal(&ch.Hash) {
+						r.walkResolves = false
+					}
 					out = append(out, [3]int{int(ver), int(idx), r.nid(ch.Hash)})
 					if oi != nil && oi.rid >= 2 && ver < ri.ver {
 						next = oi.root()
@@ -542,6 +578,7 @@ func (r *runner) walkTree(ri, oi *rootInfo) (out [][3]int) {
 			}
 		}
 	}
+	r.walkResolves = true
 	walk(&node.Pointer{Clean: true, Hash: root.Hash}, root)
 	return
 }
@@ -725,6 +762,11 @@ func (r *runner) step(op Op) (o opObs) {
 			} else {
 				o.tree = r.walkTree(ri, oi)
 				r.trees[kk] = o.tree
+				if r.tainted {
+					// the model predicts whether every node of the child RESOLVES; a complete iteration
+					// may by accident still return the right contents from misresolved nodes
+					o.resolveKnown, o.resolves = true, r.walkResolves
+				}
 			}
 		}
 		st, got := r.readRoot(ri, ri.ver)
@@ -824,6 +866,26 @@ func (r *runner) step(op Op) (o opObs) {
 		}
 		r.ref.hasLast, r.ref.last = true, op.Ver
 	case "prune":
+		if os.Getenv("VERIF_DEBUG") != "" && r.kind == "badger" {
+			inv := map[int]hash.Hash{}
+			for h, id := range r.nodeID {
+				inv[id] = h
+			}
+			for _, k := range r.known {
+				if k.ver != op.Ver || k.rid < 2 {
+					continue
+				}
+				root := k.ri.root()
+				root.Version = k.ver
+				var miss []int
+				for _, n := range r.reach[k.rid] {
+					if _, err := r.rec.NodeDB.GetNode(root, &node.Pointer{Clean: true, Hash: inv[n]}); err != nil {
+						miss = append(miss, n)
+					}
+				}
+				fmt.Printf("   dbg before prune(%d): root rid %d has=%v reach=%v invisible=%v\n", op.Ver, k.rid, r.ndb.HasRoot(root), r.reach[k.rid], miss)
+			}
+		}
 		err := r.ndb.Prune(op.Ver)
 		o.class = classify(err)
 		if err != nil {
@@ -1153,15 +1215,27 @@ func runCase(c Case, pl *plan) caseResult {
 			}
 		}
 		ob := rb.step(op)
+		rb.after(op)
 		rb.observe(&ob)
 		rb.oracle(op, &ob)
 		opp := rp.step(op)
+		rp.after(op)
 		rp.observe(&opp)
 		rp.oracle(op, &opp)
 		res.obsB = append(res.obsB, ob)
 		res.obsP = append(res.obsP, opp)
-		if rb.stopOracle && res.cutAt == len(c.Ops)-1 {
-			res.cutAt = i
+		if res.cutAt == len(c.Ops)-1 {
+			lost := rb.stopOracle
+			for _, ro := range ob.roots {
+				// independent of the oracle's domain gating: once badger serves a listed root
+				// incompletely, later answers depend on which tree paths are touched
+				if ro.rid >= 2 && ro.has && ro.status != stExact {
+					lost = true
+				}
+			}
+			if lost {
+				res.cutAt = i
+			}
 		}
 		if rp.tainted && res.cutP < 0 {
 			res.cutP = i + 1 // pathbadger's part of the case ends with the tainting commit (PathBadger.v predicts the misread)
@@ -1364,6 +1438,17 @@ func genCase(r *prng.R, profile string) Case {
 	start := uint64(r.Range(0, 2))
 	nver := r.Range(2, 10)
 	lag := r.Range(1, 3)
+	compaction := profile == "compaction"
+	if compaction {
+		profile = "common" // same shapes; every version is flushed to a table, every prune is followed by a compaction
+		lag = r.Range(2, 3)
+	}
+	then := func(kind string, pct int) string {
+		if compaction || r.Chance(pct) {
+			return kind
+		}
+		return ""
+	}
 	finState, finIO := 0, 0 // names of the last finalized roots
 	var finStates []int      // all finalized state roots of the previous version (badger profile)
 	removed := map[int]int{}
@@ -1462,7 +1547,7 @@ func genCase(r *prng.R, profile string) Case {
 				preI = append(preI, g.commit(ver+1, 2, 0, []Write{{Key: 8, Val: r.Range(1, 2)}, {Key: r.Range(1, 7), Val: 1}}))
 			}
 		}
-		g.ops = append(g.ops, Op{K: "finalize", Ver: ver, Roots: fin})
+		g.ops = append(g.ops, Op{K: "finalize", Ver: ver, Roots: fin, Then: then("reopen", 12)})
 		keptIDs = append(keptIDs, fin...)
 		if profile == "errors" && r.Chance(30) {
 			g.ops = append(g.ops, Op{K: "finalize", Ver: ver, Roots: fin}) // already finalized
@@ -1472,7 +1557,7 @@ func genCase(r *prng.R, profile string) Case {
 			if profile == "errors" && r.Chance(20) {
 				g.ops = append(g.ops, Op{K: "prune", Ver: earliest + 1}) // not earliest
 			}
-			g.ops = append(g.ops, Op{K: "prune", Ver: earliest})
+			g.ops = append(g.ops, Op{K: "prune", Ver: earliest, Then: then("compact", 25)})
 			for _, id := range keptIDs { // only roots that were finalized: a commit on top of a discarded
 				if g.verOf[id] == earliest { // candidate depends on which tree paths it touches
 					pruned = append(pruned, id)
@@ -1486,6 +1571,9 @@ func genCase(r *prng.R, profile string) Case {
 		for i := 0; i < lag+1; i++ {
 			g.ops = append(g.ops, Op{K: "prune", Ver: earliest + uint64(i)})
 		}
+	}
+	if compaction {
+		profile = "compaction"
 	}
 	return Case{Profile: profile, Ops: g.ops}
 }
@@ -1683,7 +1771,7 @@ func main() {
 	} else {
 		cases = append(cases, knownDefectCase())
 		r := prng.New(*seed)
-		profiles := []string{"common", "common", "badger", "errors"}
+		profiles := []string{"common", "common", "badger", "errors", "compaction"}
 		for i := 0; i < *n; i++ {
 			cases = append(cases, genCase(r.Fork(), profiles[i%len(profiles)]))
 		}
@@ -1724,6 +1812,9 @@ func main() {
 			}
 			o := res.obsB[i]
 			sum.Count("op", op.K+":"+eNames[o.class])
+			if op.Then != "" {
+				sum.Count("then", op.K+"+"+op.Then)
+			}
 			sum.Count("op_pathbadger", op.K+":"+eNames[res.obsP[i].class])
 			if op.K == "prune" && o.class == eOk {
 				prunes++
@@ -1756,6 +1847,9 @@ func main() {
 			}
 			for _, ro := range res.obsP[i].roots {
 				sum.Count("pathbadger_root_status", stName(ro.status))
+			}
+			if *verbose && os.Getenv("VERIF_DEBUG") != "" {
+				fmt.Printf("   dbg puts=%v removed=%v reach=%v inl=%v\n", o.puts, o.removed, o.reach, o.inl)
 			}
 			if *verbose {
 				fmt.Printf("op %d %+v\n  badger     %s %s\n  pathbadger %s %s\n", i, op, coqObs(o, false, false), o.errText, coqObs(res.obsP[i], false, true), res.obsP[i].errText)
@@ -1799,7 +1893,11 @@ func main() {
 				pops = append(pops, coqPOp(c.Ops[i], pl, res.obsP[i]))
 			}
 		}
-		term := fmt.Sprintf("((%s, %s), (%s, %s))", coqout.List(ops), coqout.List(pops), coqout.List(ob), coqout.List(op2))
+		popsTerm := coqout.List(pops)
+		if len(pops) == 0 {
+			popsTerm = "([] : list pop)"
+		}
+		term := fmt.Sprintf("((%s, %s), (%s, %s))", coqout.List(ops), popsTerm, coqout.List(ob), coqout.List(op2))
 		wb.Add(term, map[string]any{"case": c})
 		for _, f := range res.finds {
 			sum.Count("findings", f.key)
